@@ -201,7 +201,7 @@ func (s *Sim) Gen(r *PRNG) Step {
 			add(k, pods)
 		case "prel":
 			add(k, procParked)
-		case "replicas", "slots", "scalein", "scaleout", "template", "partition", "strategy", "pause", "touch", "histlimit", "slotadd", "resubmit", "delset", "policy":
+		case "replicas", "slots", "xslots", "scalein", "scaleout", "template", "partition", "strategy", "pause", "touch", "histlimit", "slotadd", "resubmit", "delset", "policy":
 			add(k, sets)
 		default:
 			add(k, true)
@@ -240,8 +240,14 @@ func (s *Sim) Gen(r *PRNG) Step {
 	case "kube":
 		st.A = r.Intn(16)
 		st.B = []int{0, 0, 0, 0, 1, 2, 3, 4, 5, 5, 5, 6}[r.Intn(12)]
+		if s.Cfg.KubeProgressOnly {
+			st.B = []int{0, 0, 5, 5, 6}[r.Intn(5)]
+		}
 	case "replicas":
 		st.A, st.B = r.Intn(nsets), r.Intn(6)
+		if s.Cfg.Profile == "c01" {
+			st.B = r.Intn(9)
+		}
 	case "slots":
 		st.A = r.Intn(nsets)
 		if r.Chance(0.15) {
@@ -249,6 +255,10 @@ func (s *Sim) Gen(r *PRNG) Step {
 		} else {
 			st.S = slotChoices[r.Intn(len(slotChoices))]
 		}
+	case "xslots":
+		st.K = "slots"
+		st.A = r.Intn(nsets)
+		st.S = exoticSlots[r.Intn(len(exoticSlots))]
 	case "slotadd":
 		st.A, st.B = r.Intn(nsets), r.Intn(7)
 	case "scalein", "scaleout":
